@@ -1,9 +1,113 @@
 /-
 C22 — Display limits return the top of the ranked result.  Property theorems; lemmas live in C22/Lemmas.lean.
 -/
-import ZoektModel.C22.Spec
+import ZoektModel.C22.LemmasAgg
 namespace ZoektModel.C22
 open ZoektModel
+
+/-! ### the truncator (`NewDisplayTruncator`, `limitSender`) -/
+
+/-- **batch-split invariance**: for any split of a list into batches, the concatenated outputs of one stateful
+    truncator are what a fresh truncator returns for the whole list -/
+theorem truncator_split_invariant (batches : List (List File)) : ∀ (st : TState), st.WF →
+    ((truncRun st batches).map (·.1)).flatten = (truncStep st batches.flatten).1 := by
+  induction batches with
+  | nil => intro st _; simp [truncRun, truncStep_nil]
+  | cons b bs ih =>
+    intro st h
+    simp only [truncRun, List.map_cons, List.flatten_cons]
+    rw [ih _ (truncStep_wf st b h), truncStep_append st b bs.flatten h]
+
+/-- **`truncator_prefix`**: for any split of a ranked list into batches, what the truncator lets through is at most `D`
+    files and `M` matches and is the beginning of the list — the same leading files with their leading matches, the
+    last file cut at the limit, stopping only where a limit is reached (`checkDisplay`), provided every cut of a
+    single unit is acceptable (`CutOK`: always in line mode, see `truncator_prefix_line`; in chunk mode this is
+    `chunk_cut_whole_lines`). -/
+theorem truncator_prefix (D M : Nat) (c : Bool) (ctx : Nat) (batches : List (List File))
+    (hok : ∀ f ∈ batches.flatten, ∀ u ∈ f.units, CutOK c ctx u) :
+    checkDisplay D M c ctx batches.flatten
+      ((truncRun (newTruncator D M c) batches).map (·.1)).flatten = true := by
+  rw [truncator_split_invariant batches _ (newTruncator_wf D M c)]
+  exact trunc1_display D M c ctx _ hok
+
+/-- line mode: unconditional -/
+theorem truncator_prefix_line (D M : Nat) (ctx : Nat) (batches : List (List File))
+    (hb : ∀ f ∈ batches.flatten, ∀ u ∈ f.units, u.bad = false) :
+    checkDisplay D M false ctx batches.flatten
+      ((truncRun (newTruncator D M false) batches).map (·.1)).flatten = true :=
+  truncator_prefix D M false ctx batches (fun f hf u hu => cutOK_line ctx u (hb f hf u hu))
+
+/-- once `hasMore` is false the truncator returns nothing more -/
+theorem truncator_quiet_after_done (st : TState) (fm : List File) (hd : st.done = true)
+    (hl : (!st.docLimited && !st.matchLimited) = false) : truncStep st fm = ([], false, st) :=
+  truncStep_done st fm hd hl
+
+/-! ### the aggregate (`collectSender`) -/
+
+/-- **`aggregate_prefix_partial`** (any mode in which cutting twice is cutting once — `Comp`, true of line mode):
+    if all scores are pairwise distinct and all files have the same extension (so that the novel-extension promotion
+    cannot fire), then for every arrival order and batching of the shard results `collectSender` returns exactly the
+    ranked, truncated union. -/
+theorem aggregate_prefix_of_comp (c : Bool) (hc : Comp c) (D M e : Nat) (batches : List (List File))
+    (hne : batches ≠ []) (hnd : (scores batches.flatten).Nodup) (hext : ∀ f ∈ batches.flatten, f.ext = e) :
+    collect D M c batches = some (sortAndTruncate D M c batches.flatten) := by
+  unfold collect
+  cases hlim : hasDisplayLimit D M with
+  | true =>
+    obtain ⟨b, bs, rfl⟩ := List.exists_cons_of_ne_nil hne
+    have hfold := collect_fold c hc D M hlim e (b :: bs) none [] (by simp [topN_nil, sortDesc])
+      (by simpa using hnd) (by simpa using hext)
+    obtain ⟨y, hy⟩ := collectSend_isSome D M c none b
+    obtain ⟨x, hx⟩ := foldl_collectSend_isSome D M c bs y
+    have hx' : List.foldl (collectSend D M c) none (b :: bs) = some x := by
+      simp only [List.foldl_cons, hy, hx]
+    rw [hx'] at hfold ⊢
+    simp only [collectDone, hlim, if_true, Option.getD_some, List.nil_append] at hfold ⊢
+    rw [hfold, sortAndTruncate_eq]
+    congr 2
+    unfold sortFiles
+    exact (boost_sameExt e _ (fun f hf => hext f ((sortDesc_perm _).mem_iff.mp hf))).symm
+  | false =>
+    have h0 : D = 0 ∧ M = 0 := by
+      simp only [hasDisplayLimit, Bool.or_eq_false_iff, decide_eq_false_iff_not] at hlim
+      omega
+    obtain ⟨rfl, rfl⟩ := h0
+    obtain ⟨b, bs, rfl⟩ := List.exists_cons_of_ne_nil hne
+    have hfold := collect_nolimit_fold c (b :: bs) none
+    obtain ⟨y, hy⟩ := collectSend_isSome 0 0 c none b
+    obtain ⟨x, hx⟩ := foldl_collectSend_isSome 0 0 c bs y
+    have hx' : List.foldl (collectSend 0 0 c) none (b :: bs) = some x := by
+      simp only [List.foldl_cons, hy, hx]
+    rw [hx'] at hfold ⊢
+    simp only [collectDone, hlim, Option.getD_some, Option.getD_none, List.nil_append] at hfold ⊢
+    rw [hfold]
+    rfl
+
+/-- line mode -/
+theorem aggregate_prefix_partial (D M e : Nat) (batches : List (List File))
+    (hne : batches ≠ []) (hnd : (scores batches.flatten).Nodup) (hext : ∀ f ∈ batches.flatten, f.ext = e) :
+    collect D M false batches = some (sortAndTruncate D M false batches.flatten) :=
+  aggregate_prefix_of_comp false comp_line D M e batches hne hnd hext
+
+/-- … hence `Search` with display limits returns the top of its own unlimited ranked result (the statement,
+    `checkDisplay`, of the model's limited aggregate against the model's unlimited aggregate) -/
+theorem aggregate_display_partial (D M e ctx : Nat) (batches : List (List File))
+    (hne : batches ≠ []) (hnd : (scores batches.flatten).Nodup) (hext : ∀ f ∈ batches.flatten, f.ext = e)
+    (hb : ∀ f ∈ batches.flatten, ∀ u ∈ f.units, u.bad = false) :
+    checkDisplay D M false ctx ((collect 0 0 false batches).getD []) ((collect D M false batches).getD []) = true := by
+  rw [aggregate_prefix_partial D M e batches hne hnd hext, aggregate_prefix_partial 0 0 e batches hne hnd hext]
+  simp only [Option.getD_some]
+  have h0 : sortAndTruncate 0 0 false batches.flatten = sortFiles batches.flatten := by
+    rw [sortAndTruncate_eq]; simp [optL, topN_none_none]
+  rw [h0]
+  unfold sortAndTruncate
+  refine trunc1_display D M false ctx _ ?_
+  intro f hf u hu
+  have hfs : sortFiles batches.flatten = sortDesc batches.flatten := by
+    unfold sortFiles
+    exact boost_sameExt e _ (fun f hf => hext f ((sortDesc_perm _).mem_iff.mp hf))
+  rw [hfs] at hf
+  exact cutOK_line ctx u (hb f ((sortDesc_perm _).mem_iff.mp hf) u hu)
 
 /-! ### the worked counter-example of DESIGN §7 C22 (file limit 3, novel-extension promotion) -/
 
